@@ -419,6 +419,9 @@ func reqScripted() []reqCfg {
 		// retry on a silent peer, re-send when the connection goes, receive deadline
 		{Inherit: true, Opts: []reqCtxOpt{{Retry: 5 * sec, RecvExp: 30 * sec}, {Retry: 5 * sec, RecvExp: 30 * sec}}, Steps: []string{"conn", "send c1", "recv c1", "adv 4.999999s", "adv 1us", "conn", "drop p1", "reply p2 cur c1", "send c1", "recv c1", "adv 29.999999s", "adv 1us", "recv c1"}},
 		{Inherit: true, Opts: []reqCtxOpt{{Retry: 0, FailNoPeers: true}, {Retry: 0, FailNoPeers: true}}, Steps: []string{"send c1", "conn", "send c1", "recv c1", "drop p1", "recv c1", "adv 10s"}},
+		// a Send that is waiting for a connection while a Recv on the same context runs into its deadline: the request
+		// is given up, and the Send comes back too - it does not wait for ever for a dispatch that cannot come any more
+		{Opts: []reqCtxOpt{{Retry: 5 * sec, RecvExp: 3 * sec}}, Steps: []string{"send c0", "recv c0", "adv 2.999999s", "adv 1us", "conn", "send c0", "recv c0", "reply p1 cur c0"}},
 		// context close with a pending receive; socket close with pending calls
 		{Opts: []reqCtxOpt{d, d}, Steps: []string{"conn", "send c1", "recv c1", "cclose c1", "send c1", "send c0", "recv c0"}},
 	}
